@@ -339,6 +339,63 @@ fn cmd_exec_plan(args: &[String]) -> i32 {
     0
 }
 
+/// dump-plans: JSON-lines of generated plans (for drivers that have no generator of their own)
+fn cmd_dump_plans(args: &[String]) -> i32 {
+    let family = arg(args, "--family").unwrap_or("group");
+    let focus = arg(args, "--focus").unwrap_or("C03");
+    let seed: u64 = arg(args, "--seed").and_then(|s| s.parse().ok()).unwrap_or(0xD41E5EED);
+    let runs: u64 = arg(args, "--runs").and_then(|s| s.parse().ok()).unwrap_or(10);
+    let start: u64 = arg(args, "--start").and_then(|s| s.parse().ok()).unwrap_or(0);
+    let thorough = arg(args, "--tier") == Some("thorough");
+    let out = match arg(args, "--out") {
+        Some(o) => o,
+        None => return 2,
+    };
+    let mut text = String::new();
+    for k in 0..runs {
+        let plan = generate(family, focus, seed, start + k, thorough);
+        text.push_str(&serde_json::to_string(&plan).unwrap());
+        text.push('\n');
+    }
+    if std::fs::write(out, text).is_err() {
+        return 2;
+    }
+    0
+}
+
+/// exec-plans FILE OUT: executes JSON-lines plans, writes "run step hash" lines (and "run VIOLATION class" on a violation)
+fn cmd_exec_plans(args: &[String]) -> i32 {
+    let (inp, out) = match (args.get(0), args.get(1)) {
+        (Some(a), Some(b)) => (a, b),
+        _ => return 2,
+    };
+    let text = match std::fs::read_to_string(inp) {
+        Ok(t) => t,
+        Err(_) => return 2,
+    };
+    let mut o = String::new();
+    for line in text.lines() {
+        if line.trim().is_empty() {
+            continue;
+        }
+        let plan: Plan = match serde_json::from_str(line) {
+            Ok(p) => p,
+            Err(_) => return 2,
+        };
+        let res = exec::execute(&plan);
+        for (i, h) in &res.log {
+            o.push_str(&format!("{} {} {:016x}\n", plan.run, i, h));
+        }
+        if let Some(v) = &res.violation {
+            o.push_str(&format!("{} VIOLATION {} {}\n", plan.run, v.class, v.detail.replace('\n', " ")));
+        }
+    }
+    if std::fs::write(out, o).is_err() {
+        return 2;
+    }
+    0
+}
+
 fn cmd_dump_plan(args: &[String]) -> i32 {
     let family = arg(args, "--family").unwrap_or("group");
     let focus = arg(args, "--focus").unwrap_or("C03");
@@ -361,6 +418,8 @@ fn main() {
         Some("replay") => cmd_replay(&args[1..]),
         Some("exec-plan") => cmd_exec_plan(&args[1..]),
         Some("dump-plan") => cmd_dump_plan(&args[1..]),
+        Some("dump-plans") => cmd_dump_plans(&args[1..]),
+        Some("exec-plans") => cmd_exec_plans(&args[1..]),
         Some("selfcheck") => match refmodel::selfcheck::run() {
             Ok(n) => {
                 println!("{}", json!({"model_selfcheck": "ok", "checks": n}));
